@@ -28,7 +28,11 @@ class SourceModule(Object):
     @property
     def changed(self):
         # type: () -> bool
-        return self.mtime != getmtime(self.filename)
+        try:
+            return self.mtime != getmtime(self.filename)
+        except OSError:
+            # the file was removed
+            return True
 
     @cached_property
     def scope(self):
